@@ -11,6 +11,7 @@ import ConjureVerif.Model.AnyIO
 import ConjureVerif.Model.ErrorM
 import ConjureVerif.Model.EnumUnion
 import ConjureVerif.Model.DoubleOps
+import ConjureVerif.Model.Endpoint
 /-
 Line-protocol driver.  One operation per input line: `<property> <op> <args…>`; one output line per
 operation.  Imports models only (no Mathlib, no proofs), so it links as a native executable.
@@ -27,6 +28,8 @@ def dispatch (line : String) : String :=
   | ["C10", "noop"] => "noop"
   | "C10" :: rest => EnumUnion.handle rest
   | "C14" :: rest => DoubleOps.handle rest
+  | "C19" :: rest => Endpoint.handle rest
+  | "C09" :: rest => Endpoint.handle rest
   | "C17" :: rest => ErrorM.handle rest
   | "C06" :: rest => Body.handle rest
   | "C18" :: rest => Body.handle rest
